@@ -288,7 +288,8 @@ pub fn probe(func: &str) -> bool {
     // ---- Number container: ordering and equality of every admissible pairing of variants agree with the float comparison
     {
         use rateslib::dual::Number;
-        let vals = [-1.5, 0.0, 0.5, 2.0];
+        // signed zeros and NaN included: the order is the floats' partial order (-0.0 == 0.0, NaN unordered), not a total order
+        let vals = [-1.5, -0.0, 0.0, 0.5, 2.0, f64::NAN];
         let mk = |kind: usize, v: f64| -> Number {
             match kind { 0 => Number::F64(v), 1 => Number::Dual(Dual::new(v, vec!["x".to_string()])), _ => Number::Dual2(Dual2::new(v, vec!["x".to_string()])) }
         };
